@@ -479,7 +479,7 @@ Lemma rtoks_ok : forall r k, wf_rule r = true -> forallb tok_ok k = true -> fora
 Proof.
   destruct toks_ok as (He & _).
   intros r k Hwf Hk. unfold wf_rule in Hwf. repeat (apply andb_true_iff in Hwf as [Hwf ?]).
-  unfold rtoks. cbn [forallb tok_ok].
+  unfold rtoks. cbn [forallb tok_ok]. rewrite desc_ok_quote_body.
   repeat match goal with H : ?x = true |- context [?x] => rewrite H end. cbn [andb].
   match goal with H : in_i32 _ = true |- _ => unfold in_i32 in H; apply andb_true_iff in H as [A B] end.
   apply Z.leb_le in A, B. unfold min_i32, max_i32 in *.
